@@ -33,6 +33,7 @@ type Config struct {
 	NoHooks        bool    `json:"no_hooks,omitempty"`
 	Yield          int     `json:"yield,omitempty"`
 	Faults         []Fault `json:"faults,omitempty"`
+	LogYield       int     `json:"log_yield,omitempty"` // the server has a Logger that yields the processor this many times per line
 	BaseDeadlineMs int     `json:"base_deadline_ms,omitempty"`
 }
 
@@ -685,6 +686,15 @@ func Run(t *testing.T, sc Scenario) (h *History) {
 			pushCtx: map[int]context.CancelFunc{}, drain: make(chan struct{}), statusSet: map[int]bool{}}
 		h.Active0 = jrpc2.VerifServersActive()
 		opts := &jrpc2.ServerOptions{AllowPush: sc.Cfg.AllowPush, DisableBuiltin: sc.Cfg.DisableBuiltin, Concurrency: sc.Cfg.Concurrency}
+		if n := sc.Cfg.LogYield; n > 0 {
+			// a Logger that gives up the processor: the server logs at many points,
+			// under its mutex; whatever is logged outside it becomes a wider window
+			opts.Logger = func(string) {
+				for i := 0; i < n; i++ {
+					runtime.Gosched()
+				}
+			}
+		}
 		var baseCancels []context.CancelFunc
 		var bmu sync.Mutex
 		if sc.Cfg.BaseDeadlineMs > 0 {
